@@ -16,11 +16,13 @@ import SnootyVerif.Drv.C14
 import SnootyVerif.Drv.C02
 import SnootyVerif.Drv.C04
 import SnootyVerif.Drv.C11
+import SnootyVerif.Drv.C01
+import SnootyVerif.Drv.C03
 open Lean SnootyVerif.Drv
 
 /-- every `Drv/Cxx.lean` exports `ops`; add the import above and one line here. -/
 def allOps : List (String × (Json → Except String Json)) :=
-  C09.ops ++ C06.ops ++ C07.ops ++ C15.ops ++ C20.ops ++ C19.ops ++ C17.ops ++ C10.ops ++ C16.ops ++ C13.ops ++ C18.ops ++ C12.ops ++ C08.ops ++ C05.ops ++ C14.ops ++ C02.ops ++ C04.ops ++ C11.ops
+  C09.ops ++ C06.ops ++ C07.ops ++ C15.ops ++ C20.ops ++ C19.ops ++ C17.ops ++ C10.ops ++ C16.ops ++ C13.ops ++ C18.ops ++ C12.ops ++ C08.ops ++ C05.ops ++ C14.ops ++ C02.ops ++ C04.ops ++ C11.ops ++ C01.ops ++ C03.ops
 
 def dispatch (op : String) (j : Json) : Except String Json :=
   match allOps.lookup op with
